@@ -33,7 +33,7 @@ func constString(v ssa.Value) (string, bool) {
 
 func checkC18(e *Engine, r *Report) {
 	r.Rules = []string{
-		"lookup order (resource-policy cache, sgx-epc): three single-key lookups in the same annotation map with keys K+\"/container.\"+name, K+\"/pod\", K, in this order, each hit returning at once; no iteration over the map",
+		"lookup order (resource-policy cache, sgx-epc): the annotation map is consulted by single-key lookups only (never ranged over), the keys tried are, in execution order, K+\"/container.\"+name, K+\"/pod\", K (written as consecutive lookups or as a loop over a literal list of the forms), and a hit returns at once with the value found",
 		"R10 order independence (memory-qos, memtierd effectiveAnnotations): inside the range over the annotation map, container-specific entries are written unconditionally (override) and pod-wide entries only through associate(…, false); associate stores iff override or absent",
 		"explicit beats class (memory-qos, memtierd CreateContainer): explicitly annotated cgroup parameters are stored unconditionally, class-derived ones only through associate(…, false)",
 		"addressing: the container-specific form is matched as a whole suffix `<suffix>/<container name>` including the separator, the pod-wide form as `<suffix>`",
@@ -43,82 +43,7 @@ func checkC18(e *Engine, r *Report) {
 
 	// ---- rule 1: pod.GetEffectiveAnnotation ------------------------------------------
 	if fn := r.Anchor(pkgCA, "pod.GetEffectiveAnnotation"); fn != nil {
-		var lookups []*ssa.Lookup
-		hasRange := false
-		AllInstrs(fn, func(in ssa.Instruction) {
-			if l, ok := in.(*ssa.Lookup); ok {
-				lookups = append(lookups, l)
-			}
-			if _, ok := in.(*ssa.Range); ok {
-				hasRange = true
-			}
-		})
-		r.Check("R1:pod-eff#no-iteration", "lookup order", "GetEffectiveAnnotation never iterates over the annotation map", e.Pos(fn.Pos()), fn, !hasRange, "", false)
-		shape := func(l *ssa.Lookup) string {
-			var ls []ssa.Value
-			concatLeaves(l.Index, &ls)
-			var parts []string
-			for _, x := range ls {
-				if s, ok := constString(x); ok {
-					parts = append(parts, fmt.Sprintf("%q", s))
-				} else if pi := paramIndex(x); pi >= 0 {
-					parts = append(parts, fmt.Sprintf("p%d", pi))
-				} else {
-					parts = append(parts, "?")
-				}
-			}
-			return strings.Join(parts, "+")
-		}
-		want := []string{`p1+"/container."+p2`, `p1+"/pod"`, `p1`}
-		okShape := len(lookups) == 3
-		got := []string{}
-		for _, l := range lookups {
-			got = append(got, shape(l))
-		}
-		if okShape {
-			// order by dominance
-			for i := 0; i < 3; i++ {
-				for j := i + 1; j < 3; j++ {
-					if dominatesInstr(lookups[j], lookups[i]) {
-						lookups[i], lookups[j] = lookups[j], lookups[i]
-					}
-				}
-			}
-			for i, l := range lookups {
-				if shape(l) != want[i] {
-					okShape = false
-				}
-			}
-			okShape = okShape && dominatesInstr(lookups[0], lookups[1]) && dominatesInstr(lookups[1], lookups[2])
-			sameMap := lookups[0].X == lookups[1].X && lookups[1].X == lookups[2].X
-			okShape = okShape && sameMap
-		}
-		r.Check("R1:pod-eff#keys-in-order", "lookup order", "the lookups are K+\"/container.\"+name, then K+\"/pod\", then K, in the same map", e.Pos(fn.Pos()), fn, okShape, strings.Join(got, " ; "), true)
-		if len(lookups) == 3 {
-			for i := 0; i < 2; i++ {
-				l := lookups[i]
-				p := FindPath(PathQuery{Fn: fn, From: l, Assume: okOf(l, true), Target: func(in ssa.Instruction) bool { _, ok := in.(*ssa.Lookup); return ok }})
-				r.Check(fmt.Sprintf("R1:pod-eff#hit%d-returns", i), "lookup order", "a hit on a more specific form returns without consulting less specific forms", e.InstrPos(l), fn, p == nil, e.pathString(p), true)
-				// and returns that value
-				okRet := true
-				for _, ret := range Returns(fn) {
-					if FindPath(PathQuery{Fn: fn, From: l, Assume: okOf(l, true), Target: func(in ssa.Instruction) bool { return in == ssa.Instruction(ret) }}) == nil {
-						continue
-					}
-					good := false
-					Origins(ret.Results[0], func(v ssa.Value) bool {
-						if ex, ok := v.(*ssa.Extract); ok && ex.Tuple == l && ex.Index == 0 {
-							good = true
-						}
-						return false
-					})
-					if !good && dominatesInstr(l, ret) && ret.Block() != lookups[2].Block() {
-						okRet = false
-					}
-				}
-				r.Check(fmt.Sprintf("R1:pod-eff#hit%d-value", i), "lookup order", "the value returned on a hit is the value found under that key", e.InstrPos(l), fn, okRet, "", true)
-			}
-		}
+		checkLookupPrecedence(e, r, fn, "pod-eff", true)
 	}
 	if fn := r.Anchor(pkgCA, "container.GetEffectiveAnnotation"); fn != nil {
 		podEff := e.objs(pkgCA, "Pod.GetEffectiveAnnotation", "pod.GetEffectiveAnnotation")
@@ -135,57 +60,7 @@ func checkC18(e *Engine, r *Report) {
 	}
 	// sgx-epc parseEpcLimit
 	if fn := r.Anchor(pkgSgx, "parseEpcLimit"); fn != nil {
-		var lk *ssa.Lookup
-		AllInstrs(fn, func(in ssa.Instruction) {
-			if l, ok := in.(*ssa.Lookup); ok {
-				lk = l
-			}
-		})
-		okKeys, got := false, ""
-		if lk != nil && paramIndex(lk.X) == 0 {
-			// the key is an element of a 3-element literal
-			if u, ok := lk.Index.(*ssa.UnOp); ok {
-				if ia, ok := u.X.(*ssa.IndexAddr); ok {
-					var al *ssa.Alloc
-					switch b := ia.X.(type) {
-					case *ssa.Slice:
-						al, _ = b.X.(*ssa.Alloc)
-					case *ssa.Alloc:
-						al = b
-					}
-					if al != nil {
-						elems := map[int64]ssa.Value{}
-						for _, ref := range *al.Referrers() {
-							if ia2, ok := ref.(*ssa.IndexAddr); ok {
-								if k, ok := ia2.Index.(*ssa.Const); ok {
-									for _, r2 := range *ia2.Referrers() {
-										if st, ok := r2.(*ssa.Store); ok {
-											elems[k.Int64()] = st.Val
-										}
-									}
-								}
-							}
-						}
-						if len(elems) == 3 {
-							var l0 []ssa.Value
-							concatLeaves(elems[0], &l0)
-							s1, ok1 := constString(elems[1])
-							s2, ok2 := constString(elems[2])
-							if len(l0) == 2 && ok1 && ok2 {
-								s0, ok0 := constString(l0[0])
-								got = fmt.Sprintf("%q+p%d ; %q ; %q", s0, paramIndex(l0[1]), s1, s2)
-								okKeys = ok0 && paramIndex(l0[1]) == 1 && s0 == s2+"/container." && s1 == s2+"/pod" && s2 != ""
-							}
-						}
-					}
-				}
-			}
-		}
-		r.Check("R1:sgx#keys-in-order", "lookup order", "parseEpcLimit tries K+\"/container.\"+name, K+\"/pod\", K in this order in the pod's annotations", e.Pos(fn.Pos()), fn, okKeys, got, true)
-		if lk != nil {
-			p := FindPath(PathQuery{Fn: fn, From: lk, Assume: okOf(lk, true), Target: func(in ssa.Instruction) bool { return in == ssa.Instruction(lk) }})
-			r.Check("R1:sgx#hit-returns", "lookup order", "the first form found decides (no further form is consulted after a hit)", e.InstrPos(lk), fn, p == nil, e.pathString(p), true)
-		}
+		checkLookupPrecedence(e, r, fn, "sgx", false)
 	}
 
 	// ---- rules 2-4: memory-qos and memtierd --------------------------------------------
@@ -412,4 +287,203 @@ func checkC18(e *Engine, r *Report) {
 			r.Check("R10:explicit-unconditional@"+sp, "explicit beats class", "explicitly annotated cgroup parameters are stored unconditionally with the annotation's own value", e.Pos(create.Pos()), create, ne >= 1, fmt.Sprintf("%d explicit stores", ne), true)
 		}
 	}
+}
+
+// ---- lookup precedence (shared by the cache and sgx-epc) --------------------------------------
+
+type keyLeaf struct {
+	konst string
+	param int // -1 for a constant
+}
+
+// keyShape flattens a string concatenation into constants and parameters (adjacent constants merged).
+func keyShape(v ssa.Value) ([]keyLeaf, bool) {
+	var ls []ssa.Value
+	concatLeaves(v, &ls)
+	var out []keyLeaf
+	for _, x := range ls {
+		if s, ok := constString(x); ok {
+			if n := len(out); n > 0 && out[n-1].param < 0 {
+				out[n-1].konst += s
+			} else {
+				out = append(out, keyLeaf{konst: s, param: -1})
+			}
+			continue
+		}
+		if pi := paramIndex(x); pi >= 0 {
+			out = append(out, keyLeaf{param: pi})
+			continue
+		}
+		return nil, false
+	}
+	return out, true
+}
+
+func shapeString(k []keyLeaf) string {
+	var parts []string
+	for _, l := range k {
+		if l.param >= 0 {
+			parts = append(parts, fmt.Sprintf("p%d", l.param))
+		} else {
+			parts = append(parts, fmt.Sprintf("%q", l.konst))
+		}
+	}
+	return strings.Join(parts, "+")
+}
+
+// literalElems: the elements of the array/slice literal that v (an element load) indexes.
+func literalElems(idx ssa.Value) []ssa.Value {
+	u, ok := idx.(*ssa.UnOp)
+	if !ok {
+		return nil
+	}
+	ia, ok := u.X.(*ssa.IndexAddr)
+	if !ok {
+		return nil
+	}
+	var al *ssa.Alloc
+	switch b := ia.X.(type) {
+	case *ssa.Slice:
+		al, _ = b.X.(*ssa.Alloc)
+	case *ssa.Alloc:
+		al = b
+	}
+	if al == nil {
+		return nil
+	}
+	byIdx := map[int64]ssa.Value{}
+	for _, ref := range *al.Referrers() {
+		if ia2, ok := ref.(*ssa.IndexAddr); ok {
+			if k, ok := constIntVal(ia2.Index); ok {
+				for _, r2 := range *ia2.Referrers() {
+					if st, ok := r2.(*ssa.Store); ok && st.Addr == ia2 {
+						byIdx[k] = st.Val
+					}
+				}
+			}
+		}
+	}
+	var out []ssa.Value
+	for i := int64(0); i < int64(len(byIdx)); i++ {
+		out = append(out, byIdx[i])
+	}
+	return out
+}
+
+func checkLookupPrecedence(e *Engine, r *Report, fn *ssa.Function, tag string, checkValue bool) {
+	var lookups []*ssa.Lookup
+	mapRange := false
+	AllInstrs(fn, func(in ssa.Instruction) {
+		if l, ok := in.(*ssa.Lookup); ok && l.CommaOk {
+			if _, isMap := l.X.Type().Underlying().(*types.Map); isMap {
+				lookups = append(lookups, l)
+			}
+		}
+		if rg, ok := in.(*ssa.Range); ok {
+			if _, isMap := rg.X.Type().Underlying().(*types.Map); isMap {
+				mapRange = true
+			}
+		}
+	})
+	r.Check("R1:"+tag+"#no-iteration", "lookup order", fn.Name()+" never iterates over the annotation map", e.Pos(fn.Pos()), fn, !mapRange, "", false)
+	// execution order of the lookups: A before B iff B is reachable from A and not vice versa
+	before := func(a, b *ssa.Lookup) bool {
+		ab := FindPath(PathQuery{Fn: fn, From: a, Target: func(in ssa.Instruction) bool { return in == ssa.Instruction(b) }}) != nil
+		ba := FindPath(PathQuery{Fn: fn, From: b, Target: func(in ssa.Instruction) bool { return in == ssa.Instruction(a) }}) != nil
+		return ab && !ba
+	}
+	ordered := true
+	for i := 0; i < len(lookups); i++ {
+		for j := i + 1; j < len(lookups); j++ {
+			switch {
+			case before(lookups[i], lookups[j]):
+			case before(lookups[j], lookups[i]):
+				lookups[i], lookups[j] = lookups[j], lookups[i]
+			default:
+				ordered = false
+			}
+		}
+	}
+	var seq [][]keyLeaf
+	okShape := ordered && len(lookups) > 0
+	sameMap := true
+	for _, l := range lookups {
+		if l.X != lookups[0].X && !sameValue(l.X, lookups[0].X) {
+			sameMap = false
+		}
+		keys := []ssa.Value{l.Index}
+		if el := literalElems(l.Index); el != nil {
+			keys = el
+		}
+		for _, k := range keys {
+			sh, ok := keyShape(k)
+			if !ok {
+				okShape = false
+			}
+			seq = append(seq, sh)
+		}
+	}
+	var got []string
+	for _, sh := range seq {
+		got = append(got, shapeString(sh))
+	}
+	// expected: [base+"/container."+name, base+"/pod", base]
+	if okShape && len(seq) == 3 && len(seq[2]) == 1 {
+		base := seq[2][0]
+		var wantPod, wantCtr []keyLeaf
+		if base.param >= 0 {
+			wantPod = []keyLeaf{base, {konst: "/pod", param: -1}}
+			wantCtr = []keyLeaf{base, {konst: "/container.", param: -1}}
+		} else {
+			wantPod = []keyLeaf{{konst: base.konst + "/pod", param: -1}}
+			wantCtr = []keyLeaf{{konst: base.konst + "/container.", param: -1}}
+		}
+		eq := func(a, b []keyLeaf) bool {
+			if len(a) != len(b) {
+				return false
+			}
+			for i := range a {
+				if a[i] != b[i] {
+					return false
+				}
+			}
+			return true
+		}
+		okShape = eq(seq[1], wantPod) && len(seq[0]) == len(wantCtr)+1 && eq(seq[0][:len(wantCtr)], wantCtr) &&
+			seq[0][len(wantCtr)].param >= 0 && seq[0][len(wantCtr)].param != base.param && (base.param >= 0 || base.konst != "")
+	} else {
+		okShape = false
+	}
+	r.Check("R1:"+tag+"#keys-in-order", "lookup order", "the keys tried are K+\"/container.\"+name, then K+\"/pod\", then K, in the same map", e.Pos(fn.Pos()), fn, okShape && sameMap, strings.Join(got, " ; "), true)
+	// a hit decides: no lookup is consulted after a hit
+	for i, l := range lookups {
+		l := l
+		last := i == len(lookups)-1 && literalElems(l.Index) == nil
+		if last {
+			continue
+		}
+		p := FindPath(PathQuery{Fn: fn, From: l, Assume: okOf(l, true), Target: func(in ssa.Instruction) bool { lk, ok := in.(*ssa.Lookup); return ok && lk.CommaOk }})
+		r.Check(fmt.Sprintf("R1:%s#hit%d-returns", tag, i), "lookup order", "a hit on a more specific form decides: no less specific form is consulted afterwards", e.InstrPos(l), fn, p == nil, e.pathString(p), true)
+		if !checkValue {
+			continue
+		}
+		okRet := true
+		for _, ret := range Returns(fn) {
+			if FindPath(PathQuery{Fn: fn, From: l, Assume: okOf(l, true), Target: func(in ssa.Instruction) bool { return in == ssa.Instruction(ret) }}) == nil {
+				continue
+			}
+			good := false
+			Origins(ret.Results[0], func(v ssa.Value) bool {
+				if ex, ok := v.(*ssa.Extract); ok && ex.Tuple == l && ex.Index == 0 {
+					good = true
+				}
+				return false
+			})
+			if !good {
+				okRet = false
+			}
+		}
+		r.Check(fmt.Sprintf("R1:%s#hit%d-value", tag, i), "lookup order", "the value returned on a hit is the value found under that key", e.InstrPos(l), fn, okRet, "", true)
+	}
+	r.MinKeys("R1:"+tag+"#hit", 1)
 }
